@@ -853,7 +853,7 @@ pub fn do_special(w: &mut World, kind: &str, a: u64, b: u64, c: u64) -> VResult<
         "apply_detached" => do_apply_detached(w, a as usize, c as usize, b),
         "bad_join" => do_bad_join(w, a, b as usize, c as usize),
         "branch" => crate::c17::do_branch(w, a as usize, b, c),
-        "forge" if b >= 10 => crate::c10::do_forge_update(w, a as usize, 0, c as usize, None),
+        "forge" if b >= 12 => crate::c10::do_forge_update(w, a as usize, 0, c as usize, None),
         "update_clash" => crate::c10::do_update_clash(w, a as usize, 0, b),
         "forge" => crate::c10::do_forge(w, a as usize, 0, b, c as usize),
         "sflip" => crate::codec::do_stored_flip(w, a as usize, c as usize, b),
@@ -1084,6 +1084,18 @@ pub fn proposal_extras(w: &mut World, _p: usize, g: usize, spec: &PropSpec) -> V
     let mut x = PropExtras::default();
     if let PropSpec::Template { t, q } = spec {
         match t {
+            10 | 11 => {
+                // add somebody with a key package that has expired / is not valid yet
+                let st = w.mem(*q, g).status.clone();
+                let banned = w.cfg.knob("banned").map(|_| w.parties.len() - 1);
+                if matches!(st, Status::Never) && Some(*q) != banned {
+                    let year = 365 * 24 * 3600u64;
+                    let at = if *t == 10 { w.clock.saturating_sub(year + 1) } else { w.clock + 3600 };
+                    if let Some(kp) = w.gen_key_package_at(*q, mls_rs::time::MlsTime::from(at))? {
+                        x.raw = Some(Arc::new(move |grp: &mut SimGroup| grp.propose_add(MlsMessage::from_bytes(&kp)?, vec![])));
+                    }
+                }
+            }
             8 => {
                 // add somebody whose credential the application's identity provider rejects
                 if let Some(kp) = w.gen_key_package(*q)? {
@@ -1142,7 +1154,7 @@ pub fn after_commit_built(
     pre: Pre,
     _out: &CommitOutput,
 ) -> VResult<()> {
-    crate::c10::on_commit_built(w, p, g, id, &_out.unused_proposals);
+    crate::c10::on_commit_built(w, p, g, id, &_out.unused_proposals)?;
     // RFC 9420 §12.4: the path is required when the commit carries a Remove, Update, GroupContextExtensions (or
     // ExternalInit) proposal or no proposal at all - a removed member must not be able to derive the next epoch
     if w.cfg.oracle("path-required") {
